@@ -99,6 +99,11 @@ def call_of(prog: Program, cls: ClassInfo) -> FuncInfo | None:
     # abstract stub?
     if any(d and d.endswith("abstractmethod") for d in f.decorators):
         return None
+    if f.cls is not cls:
+        # an inherited __call__ is analysed for the concrete class: class-level attributes it reads resolve there
+        import dataclasses as _dc
+
+        return _dc.replace(f, bound=cls)
     return f
 
 
@@ -290,6 +295,25 @@ class PredEval:
                 elif bool(v) != pol:
                     feasible = False
                     break
+            # try/except: a path that enters a handler is feasible only if the abandoned expression raises; a path
+            # that completes an assignment is feasible only if its value does not raise
+            evs = p.events
+            if feasible and any(e[0] in ("caught", "suppressed") for e in evs):
+                for i, e in enumerate(evs):
+                    if e[0] == "attempt" and i + 1 < len(evs) and evs[i + 1][0] in ("caught", "suppressed"):
+                        v = self.val(e[1], env0, depth + 1)
+                        if v is None:
+                            unknown_guard = True
+                        elif v != ("raises",):
+                            feasible = False
+                            break
+                    elif e[0] == "assign":
+                        v = self.val(e[2], env0, depth + 1)
+                        if v == ("raises",):
+                            feasible = False
+                            break
+            elif feasible and any(e[0] == "assign" and e[2][0] == "attr" and self.val(e[2], env0, depth + 1) == ("raises",) for e in evs):
+                feasible = False
             if not feasible:
                 continue
             if p.exit[0] == "return":
@@ -411,6 +435,8 @@ class PredEval:
             base = self.val(tm[1], env, depth)
             if isinstance(base, TypeArg) and tm[2] == "__class__":
                 return TypeArg("types.GenericAlias" if base.subscripted else "builtins.type")
+            if isinstance(base, TypeArg) and tm[2] == "__supertype__":
+                return ("raises",)  # no descriptor of the catalogue is a NewType (AttributeError)
             return None
         return None
 
